@@ -173,6 +173,11 @@ def random_case(rnd):
                 faults.append({"k": "frag", "s": rnd.randint(hdr, alen - 1), "d1": d1, "d2": d2})
         else:
             faults.append({"k": "ok"})
+    if rnd.random() < 0.12:
+        # one of the operations is cancelled by its caller at a seeded instant (queued, in flight, or already done)
+        ci = rnd.randrange(len(callers))
+        op = rnd.choice(callers[ci]["ops"])
+        op["cancel"] = rnd.choice([EPS, DEFAULT_LATENCY / 2, tau / 4, tau / 2, tau - EPS, tau + EPS, 2 * tau])
     toggles = []
     if level == "inverter" and rnd.random() < 0.4:
         # the application switches keep-alive while requests are queued / in flight (Inverter.set_keep_alive)
@@ -190,6 +195,13 @@ def simplify(case):
         out.append(dict(case, prior_loop=False))
     if case.get("toggles"):
         out.append(dict(case, toggles=case["toggles"][1:]))
+    for ci, c in enumerate(case["callers"]):
+        for oi, op in enumerate(c["ops"]):
+            if op.get("cancel") is not None and not case.get("cancel_mode"):
+                import copy
+                cc = copy.deepcopy(case)
+                del cc["callers"][ci]["ops"][oi]["cancel"]
+                out.append(cc)
     for ci, c in enumerate(case["callers"]):
         if c["start"]:
             cc = dict(case)
@@ -413,6 +425,8 @@ def run_case(case):
     probes = {"retry_requeued_behind_other_caller": requeued, "callers_overlapping": overlap_in_time,
               "requests": len(results), "fragments_composed": sum(1 for i in complete if txs[i]["f"]["k"] == "frag"),
               "keep_alive_switched_mid_run": len(case.get("toggles") or ()) if case["level"] == "inverter" else 0,
+              "caller_cancelled_seeded": sum(1 for c in case["callers"] for op in c["ops"] if op.get("cancel") is not None
+                                              and not case.get("cancel_mode")),
               "caller_cancelled_queued": 1 if case.get("cancel_mode") == "queued" else 0,
               "caller_cancelled_inflight": 1 if case.get("cancel_mode") == "inflight" else 0}
     return C.package(world, case, violations, sig, nontrivial, probes)
